@@ -27,6 +27,48 @@ pub fn runs_for(prop: &str, tier: &str) -> u64 {
     }
 }
 
+/// run indices from here on are enumerated cases, not seeded runs
+pub const E_BASE: u64 = 1_000_000_000;
+
+static C25_CASES: std::sync::OnceLock<Vec<(String, crate::xlsxfault::Corrupt)>> = std::sync::OnceLock::new();
+
+/// built once per process (every run executes on a thread of its own)
+fn c25_cases() -> &'static Vec<(String, crate::xlsxfault::Corrupt)> {
+    C25_CASES.get_or_init(|| crate::xlsxfault::enumerate_cases(&crate::world::fixtures_dir(), &crate::world::fixtures()))
+}
+
+/// Indices (>= E_BASE) of the enumerated cases of a tier. The numbering of the cases does
+/// not depend on the tier: quick takes every 29th case of the list thorough takes whole.
+pub fn enumerated_indices(prop: &str, tier: &str) -> Vec<u64> {
+    if prop != "C25" || std::env::var("VERIF_RUNS").is_ok() {
+        return vec![];
+    }
+    let n = c25_cases().len() as u64;
+    let stride = if tier == "thorough" { 1 } else { 29 };
+    (0..n).filter(|k| k % stride == 0).map(|k| E_BASE + k).collect()
+}
+
+pub fn enumerated_case(prop: &str, k: u64, hash_key: u64) -> Option<(Init, Vec<(crate::ev::Ev, Option<String>)>)> {
+    if prop != "C25" {
+        return None;
+    }
+    let cases = c25_cases();
+    let (fixture, corrupt) = cases.get(k as usize)?.clone();
+    let init = Init {
+        lang: "en".into(),
+        locale: "en".into(),
+        tz: "UTC".into(),
+        followers: 0,
+        initial: InitialWb::Empty,
+        start_paused: false,
+        hash_key,
+        start_ms: 1_700_000_000_000,
+        bare: None,
+    };
+    let label = format!("storage-fault:{}", crate::oracle::corrupt_kind(&corrupt));
+    Some((init, vec![(crate::ev::Ev::CorruptImport { fixture: Some(fixture), corrupt, read: None }, Some(label))]))
+}
+
 pub fn level_of(prop: &str) -> &'static str {
     match prop {
         "C04" | "C25" => "fault_enumeration",
